@@ -407,10 +407,7 @@ class Bus (objects.DBusObject):
 
                 return client.NAME_ALREADY_OWNER
             else:
-                if not replace_existing:
-                    return client.NAME_IN_USE
-
-                if owner.busNames[name]:
+                if replace_existing and owner.busNames[name]:
                     del queue[0]
                     queue.insert(0, caller)
                     del owner.busNames[name]
